@@ -8,6 +8,7 @@
 #include <cstring>
 #include <fstream>
 #include <sstream>
+#include <stdexcept>
 #include <string>
 #include <vector>
 
@@ -142,6 +143,21 @@ void task_body(void* arg)
         leave();
       }
       rec("section mode=nested");
+    }
+    else if (s.mode == 6)
+    {  // the scope is left by an exception: the lock must be released during unwinding
+      try
+      {
+        auto lad = (*g_mw)();
+        enter();
+        work(lad, s);
+        leave();
+        throw std::runtime_error("simulated failure inside the critical section");
+      }
+      catch (const std::runtime_error&)
+      {
+      }
+      rec("section mode=exception");
     }
     else if (s.mode == 5)
     {  // the second instance alone
